@@ -331,7 +331,9 @@ def hostile_doc(draw):
                 later = [uids[j] for j in range(i + 1, n_u) if not (u_info["mode"] == "cycle" and j < u_info["lead"] + u_info["k"])]
                 pool = later * 2 + rids
                 if pool:
-                    kids.append(use(pick(pool)))
+                    # before or after the use that carries the plan's edge: a harmless sibling examined first must not
+                    # make the container look "done"
+                    kids.insert(draw(st.integers(0, len(kids))), use(pick(pool)))
         a = {"id": uid}
         if ckind == "svg":
             a.update({"x": num(), "y": num(), "width": num(1), "height": num(1)})
